@@ -21,6 +21,10 @@ followed, an https -> http redirect is refused: the plain server never sees a re
 final response from it is delivered; the same for two hop chains http -> https -> http and
 https -> https -> http, whose last hop must be refused.
 
+Default port: an absolute Location without a port names port 80 whatever port the redirecting server uses: the
+redirecting server must not receive the reissued request, the client's requester names port 80, and when a Valet
+can be bound to 127.0.0.1:80 the whole chain is checked.
+
 All sockets are closed in `finally`; a run that does not finish within the (generous) bound
 of service rounds is recorded as inconclusive, never as a violation.
 """
@@ -404,6 +408,73 @@ def _run_tls_chain(case, kind, certdir, store, log, table, valets, tpath, tq, ta
         httppipe.close_all([patron] if patron else [], [])
 
 
+def run_defport(case):
+    """An absolute Location WITHOUT a port resolves to the default port of its scheme (RFC 3986 / urlsplit: 80 for
+    http), whatever port the redirecting server listens on. case = {"defport": True, "code", "target", "pre"}.
+    pre=1: a relative hop on the origin server comes first. A Valet is bound to 127.0.0.1:80 when the environment
+    allows it (then the whole chain is checked); otherwise only: the origin server (ephemeral port) must not receive
+    the redirected request and the client's requester must name port 80.  -> (fails, inconclusive)"""
+    from ioflo.base import storing
+    from ioflo.aio.tcp import Server
+    from ioflo.aio.http import clienting, serving
+    from ioflo.aid.odicting import odict
+    store = storing.Store(stamp=0.0)
+    log, table, valets = [], {}, []
+    patron = None
+    tpath, tq = TLS_TARGETS[case.get("target", 0) % len(TLS_TARGETS)]
+    tail = quote(tpath) + (("?" + urlencode([(k, v) for k, v in tq])) if tq else "")
+    try:
+        v0, p0 = httppipe.loopback_valet(make_app(0, table, log), store=store)
+        valets.append(v0)
+        v80 = None
+        try:
+            servant = Server(ha=("127.0.0.1", 80), store=store, bufsize=65536)
+            v80 = serving.Valet(servant=servant, store=store, app=make_app(1, table, log))
+            if not v80.open():
+                httppipe.close_all([], [v80])
+                v80 = None
+        except Exception:   # noqa: BLE001  port 80 not available here
+            v80 = None
+        if v80 is not None:
+            valets.append(v80)
+        loc = "http://127.0.0.1" + tail
+        if case.get("pre"):
+            table[(0, "/h0-s")] = {"kind": "redirect", "code": case["code"], "location": "/h0-r", "bodylen": 0}
+            table[(0, "/h0-r")] = {"kind": "redirect", "code": case["code"], "location": loc, "bodylen": 0}
+        else:
+            table[(0, "/h0-s")] = {"kind": "redirect", "code": case["code"], "location": loc, "bodylen": 0}
+        table[(1, tpath)] = {"kind": "final", "pos": 1}
+        patron = clienting.Patron(hostname="127.0.0.1", port=p0, store=store, bufsize=65536)
+        patron.open()
+        patron.request(method="GET", path="/h0-s", qargs=odict(), headers=odict([("Accept", "*/*")]))
+        state, rounds, ex = follow(patron, valets, max_rounds=3000 if v80 is not None else 150)
+        fails = []
+        nred = 2 if case.get("pre") else 1
+        seen0 = [e for e in log if e[0] == 0]
+        if len(seen0) < nred:
+            return [], True        # the redirecting hops themselves did not complete: inconclusive
+        stray = [e for e in seen0 if e[2] == tpath]
+        if stray:
+            fails.append(("default-port-ignored", "Location %r has no port, so it names port 80; the request was reissued to the "
+                          "redirecting server on port %d instead: %r" % (loc, p0, stray[:2])))
+        port_now = getattr(patron.requester, "port", None)
+        if not stray and port_now not in (80, "80", None):
+            fails.append(("default-port-ignored", "after following %r the client's requester names port %r, not 80" % (loc, port_now)))
+        if v80 is not None and not fails:
+            if state == "raised":
+                return [("%s/defport" % httppipe.exc_sig(ex), "following %r raised %r" % (loc, ex))], False
+            if state == "bound":
+                return [], True
+            seen1 = [(e[2], parse_qsl(e[3], keep_blank_values=True)) for e in log if e[0] == 1]
+            if seen1 != [(tpath, [(k, v) for k, v in tq])]:
+                fails.append(("wrong-hop/defport", "the server on port 80 saw %r, expected the request for %r" % (seen1, loc)))
+            elif not patron.responses or patron.responses[0].get("status") != 200:
+                fails.append(("final-response/defport", "no final 200 response from the port 80 server"))
+        return fails, False
+    finally:
+        httppipe.close_all([patron] if patron else [], valets)
+
+
 # ------------------------------------------------------------------------------ bookkeeping
 def classify(case):
     positions, hops = build_chain(case)
@@ -454,6 +525,20 @@ def work(shard, seed, tier):
                     acc.note("a TLS case was inconclusive (handshake/trust store/bound)")
                 for sig, what in fails:
                     acc.fail(sig, what, case)
+        # absolute Location without a port (default port of the scheme)
+        dcombos = [(t, c, pre) for t in range(len(TLS_TARGETS)) for c in sorted(CODES) for pre in (0, 1)]
+        if tier == "quick":
+            dcombos = [dcombos[(seed * 7 + 11 * k) % len(dcombos)] for k in range(4)]
+        for target, code, pre in dcombos:
+            case = {"defport": True, "code": code, "target": target, "pre": pre}
+            fails, inconclusive = run_defport(case)
+            acc.case(key=("defport", code, target, pre), nontrivial=True,
+                     classes=["defport"] + (["defport-inconclusive"] if inconclusive else []), sample=case)
+            if inconclusive:
+                acc.budget_hit = True
+                acc.note("a default-port case was inconclusive")
+            for sig, what in fails:
+                acc.fail(sig, what, case)
         return acc
     n = 16 if tier == "quick" else 75
 
@@ -471,6 +556,8 @@ def work(shard, seed, tier):
 
 
 def replay(case):
+    if "defport" in case:
+        return run_defport(case)[0]
     if "tls" in case:
         return run_tls(case)[0]
     return run_case(case)[0]
